@@ -221,6 +221,12 @@ func (p *Parser) MergeFile(path string) error {
 		return err
 	}
 
+	// Parent layers are not loaded here, so drop the directive rather than
+	// leaving it in the document as an invalid one.
+	for _, doc := range f.docs {
+		doc.PopMapValue("$parent")
+	}
+
 	return p.mergeFile(f)
 }
 
